@@ -139,7 +139,10 @@ def compare(Y, Yref, MAJ, name, case, out):
     # orders into higher ones, e.g. x**2.0 has exactly zero coefficients beyond order 2 and the general recurrence
     # returns 1e-16-size noise there)
     cum = np.maximum.accumulate(MAJ, axis=0)
-    scale = MAJ + np.abs(Yref).astype(np.longdouble) + np.longdouble(1e-3) * cum + np.longdouble(1e-300)
+    # absolute floor: the reference derivatives come from 50-digit arithmetic on O(1) data, so a reference coefficient
+    # of size 1e-84 is the noise of an exactly vanishing one (x**9 at x_0 = 0 below order 9); with TOL = 1e-12 the floor
+    # 1e-28 makes differences below 1e-40 acceptable
+    scale = MAJ + np.abs(Yref).astype(np.longdouble) + np.longdouble(1e-3) * cum + np.longdouble(1e-28)
     rel = err / scale
     bad = ~(rel <= tol_for(name))
     out['evals'] += Y.shape[1]
